@@ -412,4 +412,272 @@ theorem visD_off (exro : Bool) : ∀ (v : V), v.wf = true → ∀ s, s.wf = true
     · exact ih1 hw.1 s hs
     · exact ih2 hw.2 kv hkv s hs
 
+/-! ### induction over a schema and ALL its sub-schemas (properties, items, not, oneOf, anyOf, allOf) -/
+
+mutual
+def RS.sz : RS → Nat
+  | .mk _ _ _ _ _ _ props _ _ items nt oneOf anyOf allOf _ =>
+    1 + szP props + szO items + szO nt + szL oneOf + szL anyOf + szL allOf
+def szP : List (Str × RS) → Nat
+  | [] => 0
+  | (_, p) :: r => p.sz + szP r
+def szO : Option RS → Nat
+  | none => 0
+  | some s => s.sz
+def szL : List RS → Nat
+  | [] => 0
+  | s :: r => s.sz + szL r
+end
+
+theorem rs_induct_full (P : RS → Prop)
+    (h : ∀ t n r w ml mx props req a items nt oneOf anyOf allOf dflt,
+      (∀ kp ∈ props, P kp.2) → (∀ x, items = some x → P x) → (∀ x, nt = some x → P x) →
+      (∀ x ∈ oneOf, P x) → (∀ x ∈ anyOf, P x) → (∀ x ∈ allOf, P x) →
+      P (RS.mk t n r w ml mx props req a items nt oneOf anyOf allOf dflt)) : ∀ s, P s := by
+  have key := RS.sz.mutual_induct (motive_1 := P) (motive_2 := fun l => ∀ x ∈ l, P x)
+    (motive_3 := fun o => ∀ x, o = some x → P x) (motive_4 := fun l => ∀ kp ∈ l, P kp.2)
+  refine (key ?_ ?_ ?_ ?_ ?_ ?_ ?_).1
+  · intro t n r w ml mx props req a items nt oneOf anyOf allOf dflt hp hi hn h1 h2 h3
+    exact h t n r w ml mx props req a items nt oneOf anyOf allOf dflt hp hi hn h1 h2 h3
+  · intro kp hkp; cases hkp
+  · intro k p r hp hr kp hkp
+    rcases List.mem_cons.mp hkp with rfl | hkp
+    · exact hp
+    · exact hr kp hkp
+  · intro x hx; cases hx
+  · intro s hs x hx; cases hx; exact hs
+  · intro x hx; cases hx
+  · intro x r hx hr y hy
+    rcases List.mem_cons.mp hy with rfl | hy
+    · exact hx
+    · exact hr y hy
+
+/-! ### T2: where no default fires, `DefaultsSet` changes nothing -/
+
+theorem inject_of_not_injects (exro : Bool) (props : List (Str × RS)) (kvs : List (Str × V))
+    (h : injects exro props kvs = false) : inject exro props kvs = kvs := by
+  induction props with
+  | nil => rfl
+  | cons e r ih =>
+    obtain ⟨k, p⟩ := e
+    unfold injects at h ih
+    simp only [List.any_cons, Bool.or_eq_false_iff] at h
+    unfold inject
+    cases hl : lookup k kvs with
+    | some x => simp only; exact ih h.2
+    | none =>
+      cases hd : dfltFor exro p with
+      | none => simp only; exact ih h.2
+      | some d => simp [hl, hd] at h
+
+/-- `compK` does the same with two families of part visitors that agree wherever nothing fires -/
+theorem compK_congr_of_not_fires (S : RS) (v : V)
+    (fNot fNot' : V → Bool) (fOne fOne' fAny fAny' : V → List V) (fAll fAll' fOwn fOwn' : V → Option V)
+    (gNot gOne gAny gAll gOwn : V → Bool)
+    (hN : ∀ v, gNot v = false → fNot v = fNot' v)
+    (hO : ∀ v, gOne v = false → fOne v = fOne' v)
+    (hU : ∀ v, gAny v = false → (fAny v).head? = (fAny' v).head?)
+    (hA : ∀ v, gAll v = false → fAll v = fAll' v)
+    (hW : ∀ v, gOwn v = false → fOwn v = fOwn' v)
+    (h : firesK S v fNot fOne fAny fAll gNot gOne gAny gAll gOwn = false) :
+    compK S v fNot fOne fAny fAll fOwn = compK S v fNot' fOne' fAny' fAll' fOwn' := by
+  unfold compK
+  unfold firesK at h
+  by_cases h1 : (v.isNull && S.nullable) = true
+  · simp only [h1, ↓reduceIte]
+  by_cases h2 : isEmptyLeaf S = true
+  · simp only [h1, h2, ↓reduceIte]
+  simp only [h1, h2, Bool.false_eq_true, ↓reduceIte, Bool.or_eq_false_iff] at h ⊢
+  rw [← hN v h.1]
+  cases hn : fNot v with
+  | false => simp
+  | true =>
+    have h' := h.2
+    simp only [hn, Bool.true_and, Bool.or_eq_false_iff] at h'
+    simp only [Bool.not_true, Bool.false_eq_true, ↓reduceIte]
+    rw [← hO v h'.1]
+    generalize hA1 : (if S.oneOf.isEmpty = true then some v else pickOne (fOne v)) = A at h' ⊢
+    cases A with
+    | none => rfl
+    | some v1 =>
+      have h'' := h'.2
+      simp only [Bool.or_eq_false_iff] at h''
+      simp only [Option.bind_some]
+      have eB : (if S.anyOf.isEmpty = true then some v1 else (fAny v1).head?) =
+          (if S.anyOf.isEmpty = true then some v1 else (fAny' v1).head?) := by rw [hU v1 h''.1]
+      rw [← eB]
+      generalize hB1 : (if S.anyOf.isEmpty = true then some v1 else (fAny v1).head?) = B at h'' ⊢
+      cases B with
+      | none => rfl
+      | some v2 =>
+        have h3 := h''.2
+        simp only [Bool.or_eq_false_iff] at h3
+        simp only [Option.bind_some]
+        rw [← hA v2 h3.1]
+        cases hC : fAll v2 with
+        | none => rfl
+        | some v3 =>
+          have h4 := h3.2
+          simp only [hC] at h4
+          simp only [Option.bind_some]
+          by_cases hl : (v3.isNull && hasComp S) = true
+          · simp only [hl, ↓reduceIte]
+          · simp only [hl, ↓reduceIte] at h4 ⊢
+            exact hW v3 h4
+
+theorem mapOpt_congr (f g : V → Option V) (xs : List V) (h : ∀ x ∈ xs, f x = g x) : mapOpt f xs = mapOpt g xs := by
+  induction xs with
+  | nil => rfl
+  | cons x r ih =>
+    unfold mapOpt
+    rw [h x (by simp), ih (fun y hy => h y (by simp [hy]))]
+
+/-- **T2.** If no default fires on the way (over-approximated by full traversal), validating with `DefaultsSet`
+gives exactly what validating without it gives — for every schema of the fragment, compositions included. -/
+theorem visD_on_eq_off_of_not_fires (exro : Bool) :
+    ∀ s v, firesD exro s v = false → visD true exro s v = visD false exro s v := by
+  apply rs_induct_full
+  intro t n r w ml mx props req a items nt oneOf anyOf allOf dflt hp hi hn h1 h2 h3 v hf
+  unfold firesD at hf
+  unfold visD
+  refine compK_congr_of_not_fires _ v _ _ _ _ _ _ _ _ _ _ _ _ _ _ _ ?n ?o ?u ?a ?w hf
+  case n =>
+    intro v hv
+    cases nt with
+    | none => rfl
+    | some x => unfold firesNot at hv; unfold visNot; rw [hn x rfl v hv]
+  case o =>
+    intro v hv
+    have : ∀ l : List RS, (∀ x ∈ l, ∀ v, firesD exro x v = false → visD true exro x v = visD false exro x v) →
+        firesAny exro l v = false → visMatches true exro l v = visMatches false exro l v := by
+      intro l hl
+      induction l with
+      | nil => intro _; rfl
+      | cons x r ih =>
+        intro hv
+        unfold firesAny at hv
+        simp only [Bool.or_eq_false_iff] at hv
+        unfold visMatches
+        rw [hl x (by simp) v hv.1, ih (fun y hy => hl y (by simp [hy])) hv.2]
+    exact this oneOf h1 hv
+  case u =>
+    intro v hv
+    have : ∀ l : List RS, (∀ x ∈ l, ∀ v, firesD exro x v = false → visD true exro x v = visD false exro x v) →
+        firesUpto exro l v = false → (visMatches true exro l v).head? = (visMatches false exro l v).head? := by
+      intro l hl
+      induction l with
+      | nil => intro _; rfl
+      | cons x r ih =>
+        intro hv
+        unfold firesUpto at hv
+        simp only [Bool.or_eq_false_iff] at hv
+        unfold visMatches
+        have e := hl x (by simp) v hv.1
+        rw [← e]
+        cases hx : visD true exro x v with
+        | some y => simp
+        | none =>
+          simp only [Option.toList_none, List.nil_append]
+          have := hv.2
+          simp only [hx, Option.isNone_none, Bool.true_and] at this
+          exact ih (fun y hy => hl y (by simp [hy])) this
+    exact this anyOf h2 hv
+  case a =>
+    intro v hv
+    have : ∀ l : List RS, (∀ x ∈ l, ∀ v, firesD exro x v = false → visD true exro x v = visD false exro x v) →
+        ∀ v, firesAll exro l v = false → visAll true exro l v = visAll false exro l v := by
+      intro l hl
+      induction l with
+      | nil => intro _ _; rfl
+      | cons x r ih =>
+        intro v hv
+        unfold firesAll firesAllStep at hv
+        simp only [Bool.or_eq_false_iff] at hv
+        unfold visAll
+        have e := hl x (by simp) v hv.1
+        rw [← e]
+        cases hx : visD true exro x v with
+        | none => rfl
+        | some y =>
+          simp only [Option.bind_some]
+          have := hv.2
+          simp only [hx] at this
+          exact ih (fun y hy => hl y (by simp [hy])) y this
+    exact this allOf h3 v hv
+  case w =>
+    intro v hv
+    cases v with
+    | null => rfl
+    | bool b => rfl
+    | int k => rfl
+    | half k => rfl
+    | str t => rfl
+    | arr xs =>
+      have e : ∀ ds, ownK ds exro (RS.mk t n r w ml mx props req a items nt oneOf anyOf allOf dflt)
+          (visProps ds exro props) (visItems ds exro items) (.arr xs) =
+          if permits t .array then (visItems ds exro items xs).map .arr else none := fun _ => rfl
+      rw [e, e]
+      have hv' : (permits t .array && firesItems exro items xs) = false := hv
+      cases hpm : permits t .array with
+      | false => simp
+      | true =>
+        simp only [hpm, Bool.true_and] at hv'
+        cases items with
+        | none => rfl
+        | some it =>
+          unfold firesItems at hv'
+          unfold visItems
+          rw [mapOpt_congr (visD true exro it) (visD false exro it) xs
+            (fun x hx => hi it rfl x (by
+              have := List.any_eq_false.mp hv' x hx
+              simpa using this))]
+    | obj kvs =>
+      have e : ∀ ds, ownK ds exro (RS.mk t n r w ml mx props req a items nt oneOf anyOf allOf dflt)
+          (visProps ds exro props) (visItems ds exro items) (.obj kvs) =
+          if permits t .object && roLoopOK exro props (keys (injD ds exro props kvs)) &&
+             addlOKD (RS.mk t n r w ml mx props req a items nt oneOf anyOf allOf dflt) (injD ds exro props kvs) &&
+             requiredOK (RS.mk t n r w ml mx props req a items nt oneOf anyOf allOf dflt) (keys (injD ds exro props kvs))
+          then (visProps ds exro props (injD ds exro props kvs)).map .obj else none := fun _ => rfl
+      rw [e, e]
+      have hv' : (permits t .object && (injects exro props kvs || firesProps exro props (inject exro props kvs))) = false := hv
+      cases hpm : permits t .object with
+      | false => simp
+      | true =>
+        simp only [hpm, Bool.true_and, Bool.or_eq_false_iff] at hv'
+        have hinj := inject_of_not_injects exro props kvs hv'.1
+        have hfp := hv'.2
+        rw [hinj] at hfp
+        simp only [injD, hinj, if_true, Bool.false_eq_true, if_false]
+        have : ∀ (ps : List (Str × RS)),
+            (∀ kp ∈ ps, ∀ v, firesD exro kp.2 v = false → visD true exro kp.2 v = visD false exro kp.2 v) →
+            ∀ kvs, firesProps exro ps kvs = false → visProps true exro ps kvs = visProps false exro ps kvs := by
+          intro ps hps
+          induction ps with
+          | nil => intro _ _; rfl
+          | cons e r ih =>
+            obtain ⟨k, p⟩ := e
+            intro kvs hk
+            unfold firesProps firesPropStep at hk
+            unfold visProps
+            cases hl : lookup k kvs with
+            | none =>
+              simp only [hl] at hk
+              rw [propStep_none k _ kvs hl, propStep_none k _ kvs hl]
+              simp only [Option.bind_some]
+              exact ih (fun y hy => hps y (by simp [hy])) kvs hk
+            | some x =>
+              simp only [hl, Bool.or_eq_false_iff] at hk
+              rw [propStep_some k _ kvs x hl, propStep_some k _ kvs x hl]
+              have e := hps (k, p) (by simp) x hk.1
+              simp only at e
+              rw [← e]
+              cases hx : visD true exro p x with
+              | none => rfl
+              | some x' =>
+                simp only [Option.map_some, Option.bind_some]
+                have := hk.2
+                simp only [hx] at this
+                exact ih (fun y hy => hps y (by simp [hy])) _ this
+        rw [this props hp kvs hfp]
+
 end KinModel.Body
